@@ -69,3 +69,4 @@ pub use frontend::{
     Options, Resources, WorkerTree,
 };
 pub use parser::{Parser, ParserError};
+pub use utils::Json5Value;
